@@ -648,3 +648,34 @@ fn c15_parse_nack_blp_all_bits() { parse_nack_obligation(0xFFFF); }
 #[kani::proof]
 #[kani::unwind(19)]
 fn c15_parse_nack_blp_low_bit() { parse_nack_obligation(0x0001); }
+
+// ---------------------------------------------------------------- RtpPacket::parse_bytes ∘ marshal (static Bytes input)
+/// marshal then parse_bytes returns the same packet: fixed header (no CSRC / extension), payload,
+/// padding count — first octet's CC and X bits are 0 by construction of the header
+fn packet_roundtrip_obligation<const PL: usize, const PAD: u8, const N: usize>() {
+    let pl: [u8; PL] = kani::any();
+    let p = RtpPacket { header: any_header(0, None), payload: static_bytes_of(pl), padding_len: PAD };
+    let w = p.marshal().unwrap();
+    assert!(w.len() == N && N == 12 + PL + PAD as usize);
+    let mut arr = [0u8; N];
+    arr.copy_from_slice(&w);
+    let q = RtpPacket::parse_bytes(static_bytes_of(arr)).unwrap();
+    assert!(q.header == p.header && q.payload[..] == pl[..] && q.padding_len == PAD);
+    core::mem::forget(q); core::mem::forget(p);
+}
+#[kani::proof]
+#[kani::unwind(8)]
+fn c15_packet_marshal_parse_p3() { packet_roundtrip_obligation::<3, 0, 15>(); }
+#[kani::proof]
+#[kani::unwind(8)]
+fn c15_packet_marshal_parse_p2_pad2() { packet_roundtrip_obligation::<2, 2, 16>(); }
+/// C07: parse_bytes total on 12..16-byte inputs whose first octet is literal V=2, no CSRC, no extension
+#[kani::proof]
+#[kani::unwind(8)]
+fn c07_rtp_packet_parse_bytes_16_literal_b0() {
+    let mut a: [u8; 16] = kani::any();
+    a[0] = 0x80 | (a[0] & 0x20);   // V=2, P symbolic, X=0, CC=0
+    let r = RtpPacket::parse_bytes(static_bytes_of(a));
+    if let Ok(q) = &r { assert!(q.payload.len() + q.padding_len as usize == 4); }
+    core::mem::forget(r);
+}
